@@ -328,7 +328,18 @@ func c14Round(e *vfEnv, r *vfkit.R, rng *rand.Rand, round int) {
 			}
 			r.Hit("online_counter")
 			if pud.online != online[uid] || pud.online < 0 {
-				r.Violation(fmt.Sprintf("online-counter:%s", topicKind(t.name)), fmt.Sprintf("topic %s counts %d online sessions of a user, %d are attached", topicKind(t.name), pud.online, online[uid]), nil)
+				var att []string
+				for s2, p2 := range t.sessions {
+					att = append(att, fmt.Sprintf("sid=%s ua=%s background=%v uid=%s terminating=%d", s2.sid, s2.userAgent, s2.background, p2.uid.UserId(), atomic.LoadInt32(&s2.terminating)))
+				}
+				var ua string
+				for _, wk := range workers {
+					if wk.c.uid == uid {
+						ua = "vf/" + wk.c.name
+					}
+				}
+				r.Violation(fmt.Sprintf("online-counter:%s", topicKind(t.name)), fmt.Sprintf("topic %s counts %d online sessions of a user, %d are attached", topicKind(t.name), pud.online, online[uid]),
+					map[string]any{"topic": t.name, "user": uid.UserId(), "attached_sessions": att, "deleted": pud.deleted, "srvlog": vfSrvLogGrep(60, t.name), "last_sends_of_a_session_of_the_user": c14SendsOf(workers, ua)})
 			}
 		}
 		return true
